@@ -230,10 +230,15 @@ pub fn expectation(bytes: &[u8]) -> Expect {
         }
         _ => return Expect::Skip("payload digest without algorithm or vice versa"),
     }
+    // a PAYLOADDIGESTALGO entry with several (equal) items is unusual: failure has to be
+    // reported when something does not match, but success is not demanded of it
+    let multi_algo = matches!(pa.and_then(|a| fmt::decode_entry(seg.hdr.store(bytes), a)), Some(Val::Int32(v)) if v.len() > 1);
     if bad_algo {
         Expect::AnyErr
     } else if mismatch {
         Expect::Mismatch
+    } else if multi_algo {
+        Expect::Skip("multi-item digest algorithm, everything matches")
     } else {
         Expect::Ok
     }
